@@ -498,3 +498,12 @@ M('r2-c16-twin-sorted-ids-symmetric', 'C16', ENCF, "    for operand_label in gat
 M('r2-c17-decoder-raw-store', 'C17', ENCF, "    circuit.add_gate(gate)\n", "    circuit._gates[label] = gate\n", 'C17.KEY')
 M('r2-c19-block-rename-first-only', 'C19', CIRC, "        for i, output_label in enumerate(self.outputs):\n            if output_label == old_label:\n                self.outputs[i] = new_label\n\n        return self", "        if old_label in self.outputs:\n            self.outputs[self.outputs.index(old_label)] = new_label\n\n        return self", 'C19.RENAME')
 M('r2-c03-twin-cleanup-explicit-default', 'C18', CLEAN, "        RemoveRedundantGates(),\n        MergeUnaryOperators(),", "        RemoveRedundantGates(allow_inputs_removal=False),\n        MergeUnaryOperators(),", None)
+
+# ---------------------------------------------------------------- composition / miter folds
+M('r3-c10-into-circuit-dup-inputs', 'C10', CIRC, "            if not new_circuit.has_gate(_input):\n                new_circuit._emplace_gate(label=_input, gate_type=gate.INPUT)", "            if True:\n                new_circuit._emplace_gate(label=_input, gate_type=gate.INPUT)", 'C10.BLOCK')
+M('r3-c10-extend-defaults-swapped', 'C10', CIRC, "            this_connectors = self.inputs if right_connect else self.outputs", "            this_connectors = self.outputs if right_connect else self.inputs", 'C10.')
+M('r3-c10-right-connect-keeps-type', 'C10', CIRC, "                        label=connector_label,\n                        gate_type=cur_gate.gate_type,\n                        operands=connector_operands,", "                        label=connector_label,\n                        gate_type=cur_gate.gate_type if cur_gate.gate_type != gate.NOT else gate.IFF,\n                        operands=connector_operands,", 'C10.')
+M('r3-c10-outputs-keep-connectors', 'C10', CIRC, "            [output for output in self._outputs if output not in this_connectors]\n            + [", "            [output for output in self._outputs if output not in this_connectors or right_connect]\n            + [", 'C10.')
+M('r3-c13-final-and', 'C13', MIT, "        miter.emplace_gate(OR_NAME, gate.OR, xor_outputs)", "        miter.emplace_gate(OR_NAME, gate.AND, xor_outputs)", 'C13.')
+M('r3-c13-right-inputs-reversed', 'C13', MIT, "        miter.get_block(left_name).inputs,\n        right.inputs,", "        miter.get_block(left_name).inputs,\n        list(reversed(right.inputs)),", 'C13.')
+M('r3-c13-twin-locals', 'C13', MIT, "    pairwise_xor = generate_pairwise_xor(left.output_size)\n", "    n_outputs = left.output_size\n    pairwise_xor = generate_pairwise_xor(n_outputs)\n", None)
